@@ -287,7 +287,8 @@ def fixedView (t : DT) : DT :=
 /-! ## Display (`__str__`/`__repr__`): the only place the display zone enters -/
 
 /-- `astimezone(display).isoformat(" ")`; `dispOff` is what the display zone says about this instant
-    (`none`: `FLOW_RECORD_TZ=NONE`, print as stored). -/
+    (`none`: print as stored — `FLOW_RECORD_TZ=NONE`, or the display zone *is* the value's own tzinfo object, in
+    which case CPython's `astimezone` returns the value unchanged, even for a wall time inside a DST gap). -/
 def isoSpace (t : DT) : Text :=
   d4 t.y ++ 45 :: (d2 t.mo ++ 45 :: (d2 t.d ++ 32 :: (d2 t.h ++ 58 :: (d2 t.mi ++ 58 :: (d2 t.s ++
     (frac t.us ++ fmtTz t.tz))))))
